@@ -123,9 +123,10 @@ private:
     bool operator==(const marked_idx& other) const noexcept { return this->_val == other._val; }
     bool operator!=(const marked_idx& other) const noexcept { return this->_val != other._val; }
 
-  private:
-    static constexpr unsigned bits = 16;
+    static constexpr unsigned bits = 32;
     static constexpr uint64_t val_mask = (static_cast<uint64_t>(1) << bits) - 1;
+
+  private:
     uint64_t _val = 0;
   };
 
@@ -155,7 +156,13 @@ kirsch_bounded_kfifo_queue<T, Policies...>::kirsch_bounded_kfifo_queue(uint64_t 
     _k(k),
     _head(),
     _tail(),
-    _queue(new entry[k * num_segments]()) {}
+    _queue() {
+  // head and tail keep a slot index in the lower marked_idx::bits bits, so every index must fit (and k * num_segments must not wrap around)
+  if (k == 0 || _queue_size / k != num_segments || _queue_size - 1 > marked_idx::val_mask) {
+    throw std::invalid_argument("k * num_segments must be in the range [1, 2^32]");
+  }
+  _queue.reset(new entry[_queue_size]());
+}
 
 template <class T, class... Policies>
 kirsch_bounded_kfifo_queue<T, Policies...>::~kirsch_bounded_kfifo_queue() {
